@@ -27,14 +27,14 @@ type kind struct {
 // output length counts the goals that ran
 var kinds = []kind{
 	{"0", "fail.", 0, false, false},
-	{"1", "X = 1, put_char(x).", 1, false, true},
-	{"2", "member(X, [1,2]), put_char(x).", 2, false, true},
-	{"3", "member(X, [1,2,3]), put_char(x).", 3, false, true},
+	{"1", "X = 1, Y = odd, put_char(x).", 1, false, true},
+	{"2", "member(X-Y, [1-odd,2-_]), put_char(x).", 2, false, true},
+	{"3", "member(X-Y, [1-odd,2-_,3-odd]), put_char(x).", 3, false, true},
 	{"e0", "throw(oops).", 0, true, false},
-	{"e1", "member(X, [1,2]), (X == 2 -> throw(oops) ; true), put_char(x).", 1, true, true},
-	{"e2", "member(X, [1,2,3]), (X == 3 -> throw(oops) ; true), put_char(x).", 2, true, true},
+	{"e1", "member(X-Y, [1-odd,2-_]), (X == 2 -> throw(oops) ; true), put_char(x).", 1, true, true},
+	{"e2", "member(X-Y, [1-odd,2-_,3-_]), (X == 3 -> throw(oops) ; true), put_char(x).", 2, true, true},
 	{"repeat", "repeat, put_char(x).", -1, false, false},
-	{"between", "between(1, 1000000000, X), put_char(x).", -1, false, true},
+	{"between", "between(1, 1000000000, X), (X mod 2 =:= 1 -> Y = odd ; true), put_char(x).", -1, false, true},
 }
 
 // Case: one history (ops over N S E C) on one query kind; or two histories interleaved on two
@@ -97,6 +97,16 @@ type model struct {
 type iter struct {
 	m    model
 	sols *prolog.Solutions
+	// kept is the destination a caller declares once outside its loop (var s struct{...}; for sols.Next() { sols.Scan(&s) })
+	kept struct{ X, Y interface{} }
+}
+
+// wantY: in the queries whose X counts the answers, Y is the atom odd in odd answers and unbound in even ones.
+func wantY(idx int) interface{} {
+	if idx%2 == 1 {
+		return "odd"
+	}
+	return nil
 }
 
 // step performs one op on the iterator and checks it against the model.
@@ -121,17 +131,20 @@ func (it *iter) step(op byte) error {
 			return fmt.Errorf("Next returned %v, expected %v (answers delivered %d of %d, ended %v, closed %v)", got, want, m.idx, m.k.Answers, m.ended, m.closed)
 		}
 	case 'S':
-		var dst struct{ X interface{} }
-		var err error
-		if !timed(func() { err = it.sols.Scan(&dst) }) {
+		var dst struct{ X, Y interface{} }
+		var err, err2 error
+		if !timed(func() { err = it.sols.Scan(&dst); err2 = it.sols.Scan(&it.kept) }) {
 			return fmt.Errorf("Scan blocked")
 		}
 		if m.lastTrue && !m.closed && m.k.XIsIdx {
-			if err != nil {
-				return fmt.Errorf("Scan after a successful Next failed: %v", err)
+			if err != nil || err2 != nil {
+				return fmt.Errorf("Scan after a successful Next failed: %v, %v", err, err2)
 			}
-			if x, ok := dst.X.(int); !ok || x != m.idx {
-				return fmt.Errorf("Scan reports X = %v, the most recent answer is X = %d", dst.X, m.idx)
+			if x, ok := dst.X.(int); !ok || x != m.idx || dst.Y != wantY(m.idx) {
+				return fmt.Errorf("Scan into a fresh destination reports X = %v, Y = %v, the most recent answer is X = %d, Y = %v (nil: unbound)", dst.X, dst.Y, m.idx, wantY(m.idx))
+			}
+			if x, ok := it.kept.X.(int); !ok || x != m.idx || it.kept.Y != wantY(m.idx) {
+				return fmt.Errorf("Scan into the destination used for the earlier answers reports X = %v, Y = %v, the most recent answer is X = %d, Y = %v (nil: unbound)", it.kept.X, it.kept.Y, m.idx, wantY(m.idx))
 			}
 		}
 	case 'E':
@@ -280,7 +293,7 @@ func TestProp(t *testing.T) {
 	r := h.Start(t, "C12")
 	defer r.Finish(t)
 	maxLen := r.Pick(5, 7)
-	r.Rule(fmt.Sprintf("all call histories over {Next, Scan, Err, Close} up to length %d (4^n for each n) x 9 query kinds (0, 1, 2, 3 answers; an error after 0, 1, 2 answers; two infinite queries), enumerated completely; plus rapid-sampled pairs of histories on two Solutions of one interpreter merged in a generated interleaving. Every query writes one character per solution, so the output counts the goals that ran. Oracle: a model (answers delivered, ended, failed, closed): Next true exactly for answers 1..k in order and false afterwards (after exhaustion, after an error, after Close); Scan after a true Next yields that answer; Err non-nil exactly after the query ended with its error; first Close nil, later ones ErrClosed; after every call the number of goals run equals the number of answers delivered (nothing runs ahead, nothing after Close); after the history and Close the goroutine count returns to its initial value (polled up to 10 s). Every call runs under a %v watchdog: a call that does not return is the violation 'blocked'. Non-trivial: the history makes a call after exhaustion, an error or Close. Distinct by (kind, history).", maxLen, callTimeout),
+	r.Rule(fmt.Sprintf("all call histories over {Next, Scan, Err, Close} up to length %d (4^n for each n) x 9 query kinds (0, 1, 2, 3 answers; an error after 0, 1, 2 answers; two infinite queries), enumerated completely; plus rapid-sampled pairs of histories on two Solutions of one interpreter merged in a generated interleaving. Every query writes one character per solution, so the output counts the goals that ran. Oracle: a model (answers delivered, ended, failed, closed): Next true exactly for answers 1..k in order and false afterwards (after exhaustion, after an error, after Close); Scan after a true Next yields that answer (X counts the answers, Y is bound in odd answers only), both into a fresh destination and into one destination kept across the whole history; Err non-nil exactly after the query ended with its error; first Close nil, later ones ErrClosed; after every call the number of goals run equals the number of answers delivered (nothing runs ahead, nothing after Close); after the history and Close the goroutine count returns to its initial value (polled up to 10 s). Every call runs under a %v watchdog: a call that does not return is the violation 'blocked'. Non-trivial: the history makes a call after exhaustion, an error or Close. Distinct by (kind, history).", maxLen, callTimeout),
 		"calls take microseconds; the watchdog is orders of magnitude above scheduling noise", "all calls are made from one goroutine at a time")
 	r.Regress(t)
 	if r.Failed() {
